@@ -132,54 +132,63 @@ M = [
 ]
 
 
+def run_one(spec, build):
+    (name, file, old, new, count, expect) = spec
+    scratch = tempfile.mkdtemp(prefix='vpmut-')
+    try:
+        subprocess.run('git -C /repo archive HEAD | tar -x -C %s' % scratch, shell=True, check=True)
+        p = os.path.join(scratch, file)
+        s = open(p).read()
+        n = s.count(old)
+        if n == 0:
+            return (name, 'PATTERN NOT FOUND', [], [], '%-26s PATTERN NOT FOUND' % name)
+        if count == 1:
+            s = s.replace(old, new, 1)
+        elif count == 2:   # second occurrence only
+            i = s.index(old); j = s.index(old, i + 1)
+            s = s[:j] + new + s[j + len(old):]
+        else:
+            s = s.replace(old, new)
+        open(p, 'w').write(s)
+        compiled = ''
+        if build:
+            r = subprocess.run(['cargo', 'build', '--offline', '--features', 'parallel'], cwd=scratch, capture_output=True, text=True,
+                               env=dict(os.environ, CARGO_TARGET_DIR='/tmp/vpmut-target'))
+            compiled = 'compiles' if r.returncode == 0 else 'DOES-NOT-COMPILE'
+        r = subprocess.run([os.path.join(VERIF, 'check'), '--all', '--repo', scratch], capture_output=True, text=True,
+                           env=dict(os.environ, VP_NO_REPLAY='1', VP_ALT_OUT=os.path.join(scratch, '_out')))
+        verdict = {}
+        for l in r.stdout.splitlines():
+            m = re.match(r'(C\d+) rc=(\d)', l)
+            if m:
+                verdict[m.group(1)] = int(m.group(2))
+        alarms = sorted(k for k, v in verdict.items() if v == 1)
+        und = sorted(k for k, v in verdict.items() if v == 2)
+        miss = [e for e in expect if e not in alarms and e != 'UND']
+        status = 'OK' if not miss and (expect or not alarms) else ('MISSED ' + ','.join(miss) if miss else 'FALSE-ALARM')
+        if expect == ['UND']:
+            status = 'OK' if (und and not alarms) else 'UNEXPECTED'
+        line = '%-26s %-12s alarms=%s undecided=%s expected=%s %s' % (name, status, ','.join(alarms) or '-', ','.join(und) or '-', ','.join(expect) or '-', compiled)
+        return (name, status, alarms, und, line)
+    finally:
+        shutil.rmtree(scratch, ignore_errors=True)
+
+
 def main():
+    from concurrent.futures import ThreadPoolExecutor
     args = sys.argv[1:]
     build = '--build' in args
-    names = [a for a in args if not a.startswith('--')]
+    jobs = 1
+    for a in args:
+        if a.startswith('-j'):
+            jobs = int(a[2:] or 1)
+    names = [a for a in args if not a.startswith('-')]
+    todo = [m for m in M if not names or m[0] in names]
     results = []
-    for (name, file, old, new, count, expect) in M:
-        if names and name not in names:
-            continue
-        scratch = tempfile.mkdtemp(prefix='vpmut-')
-        try:
-            subprocess.run('git -C /repo archive HEAD | tar -x -C %s' % scratch, shell=True, check=True)
-            p = os.path.join(scratch, file)
-            s = open(p).read()
-            n = s.count(old)
-            if n == 0:
-                print('%-26s PATTERN NOT FOUND' % name)
-                continue
-            if count == 1:
-                s = s.replace(old, new, 1)
-            elif count == 2:   # second occurrence only
-                i = s.index(old); j = s.index(old, i + 1)
-                s = s[:j] + new + s[j + len(old):]
-            else:
-                s = s.replace(old, new)
-            open(p, 'w').write(s)
-            compiled = ''
-            if build:
-                r = subprocess.run(['cargo', 'build', '--offline', '--features', 'parallel'], cwd=scratch, capture_output=True, text=True,
-                                   env=dict(os.environ, CARGO_TARGET_DIR='/tmp/vpmut-target'))
-                compiled = 'compiles' if r.returncode == 0 else 'DOES-NOT-COMPILE'
-            r = subprocess.run([os.path.join(VERIF, 'check'), '--all', '--repo', scratch], capture_output=True, text=True,
-                               env=dict(os.environ, VP_NO_REPLAY='1'))
-            verdict = {}
-            for l in r.stdout.splitlines():
-                m = re.match(r'(C\d+) rc=(\d)', l)
-                if m:
-                    verdict[m.group(1)] = int(m.group(2))
-            alarms = sorted(k for k, v in verdict.items() if v == 1)
-            und = sorted(k for k, v in verdict.items() if v == 2)
-            miss = [e for e in expect if e not in alarms and e != 'UND']
-            status = 'OK' if not miss and (expect or not alarms) else ('MISSED ' + ','.join(miss) if miss else 'FALSE-ALARM')
-            if expect == ['UND']:
-                status = 'OK' if (und and not alarms) else 'UNEXPECTED'
-            print('%-26s %-12s alarms=%s undecided=%s expected=%s %s' % (name, status, ','.join(alarms) or '-', ','.join(und) or '-', ','.join(expect) or '-', compiled))
-            sys.stdout.flush()
-            results.append((name, status, alarms, und))
-        finally:
-            shutil.rmtree(scratch, ignore_errors=True)
+    with ThreadPoolExecutor(max_workers=jobs) as ex:
+        for res in ex.map(lambda sp: run_one(sp, build), todo):
+            print(res[4]); sys.stdout.flush()
+            results.append(res)
     bad = [r for r in results if not r[1].startswith('OK')]
     print('%d mutants, %d not as expected' % (len(results), len(bad)))
 
